@@ -23,6 +23,9 @@ class _Clock(object):
         return cls.base + _dt.timedelta(seconds=cls.t)
 
 
+_Clock.datetime = _Clock        # a tree that writes `import datetime` / `datetime.datetime.now()` sees the same clock
+
+
 def observe(monitor, step):
     buf = io.StringIO()
     _Clock.t += step["dt"]
@@ -63,7 +66,10 @@ def run(ctx, num, depth=8):
         if key not in seen and len(rec["hist"]) == depth:
             seen.add(key)
             hists.append(rec["hist"])
-    saved = op.datetime
+    saved = getattr(op, "datetime", None)
+    if saved is None:           # the clock is reached some other way in this tree: nothing to bind the virtual clock to
+        ctx.notes["monitor_flow"] = {"skipped": "dsw.operation has no name 'datetime' to virtualise"}
+        return 0
     steps = bad = 0
     labels = set()
     op.datetime = _Clock
